@@ -253,6 +253,30 @@ PROPS.update({
         "explanation": "oracle (at quiescence): each destination bucket holds exactly one bar per window that has base bars, with first open / max high / min low / last close / summed volume of the base bars the model says are currently stored",
         "budget": {"quick": 30, "thorough": 600},
     },
+    "C25": {
+        "level": "exploration", "engine": "REPL",
+        "rule": ("master + 1-2 replica nodes (real di wiring each, own root and WAL) in one simulation; the master's WAL feeds the real replication.Sender and GRPCReplicationServer, each replica runs the real "
+                 "Receiver/Retryer/ReplayerImpl over the simulated stream (0-20 ms latency); histories over fixed and variable buckets of 11 timeframes with all element types; in 50% of runs two writer tasks "
+                 "without think time so that flushed transactions mix buckets and record types; compared at quiescence (5 virtual seconds after the last write); "
+                 "distinct_nontrivial = distinct (kind, timeframe, mixed, #replicas, #rows)"),
+        "faults": ["stream latency", "seeded preemption (0/5/20%)", "transaction grouping varied by concurrent writers"],
+        "assumptions": ["co-hosted nodes share Go package variables (executor.ThisInstance, the have-WAL-writer flag): all nodes use the background writer and none is shut down while another runs",
+                        "no loss, duplication or reordering inside a live stream (a gRPC stream over TCP does not do that)"],
+        "explanation": "oracle: every all-time query returns the same rows on each replica as on the master (values equal; variable-length timestamps within tf/2^32); a replica whose receiver gives up is a violation",
+        "budget": {"quick": 40, "thorough": 900},
+    },
+    "C26": {
+        "level": "exploration", "engine": "REPL",
+        "rule": ("master (real WAL flush path, Sender, GRPCReplicationServer) with 2-4 replicas running the real Receiver/Retryer over the simulated stream, retry interval 5-200 ms; 1-2 writer tasks, 60% of runs "
+                 "in burst mode (requests back to back, preemption 10-60%, stream/sender channel depth 500/8/2); links are cut at 2-12 seeded moments (every 1-25 ms in burst mode) so that disconnects land while "
+                 "transactions are being fanned out; each replica reconnects on a new address; distinct_nontrivial = distinct (schedule hash, #replicas, #connections)"),
+        "faults": ["link break at seeded moments", "reconnect after back-off", "seeded preemption at every channel/lock/file operation", "small channel depths"],
+        "assumptions": ["tasks interleave at yield points: the unsynchronised map access of the original code is visible only through its consequences at channel operations (no race-detector build)",
+                        "stalled-but-connected replicas are not injected (outside the property's quantifier)"],
+        "explanation": ("oracle: no task panics; every writer returns within 60 virtual seconds of the last disconnect; for each connection the received transactions are a gap-free, ordered run of the master's commit sequence, "
+                        "start at most one transaction before the first one fanned out while it was registered, and a connection that stayed up received all of them"),
+        "budget": {"quick": 40, "thorough": 900},
+    },
     "C09": {
         "level": "exploration", "engine": "MODEL", "rule": MODEL_RULE,
         "faults": ["none (fault-free configuration)", "graceful restart", "compression on/off", "highly compressible payload bursts"],
